@@ -70,7 +70,9 @@ func (e *Engine) ctorLayout(fnKey string, depth int) ([]kseg, error) {
 	fa := e.FA(fn)
 	roles := map[string]string{}
 	for _, p := range fn.Params {
-		roles[p.Name()] = paramRole(p.Name(), p.Type())
+		// terms print the reviewed name of a parameter (see reviewedParamName); roles follow the same name
+		nm := reviewedParamName(p)
+		roles[nm] = paramRole(nm, p.Type())
 	}
 	return e.termLayout(fa.Term(rets[0].Results[0]), roles, depth)
 }
@@ -130,7 +132,7 @@ func (e *Engine) termLayout(t *Term, roles map[string]string, depth int) ([]kseg
 			if i >= len(t.Args) {
 				break
 			}
-			innerRole := paramRole(p.Name(), p.Type())
+			innerRole := paramRole(reviewedParamName(p), p.Type())
 			if t.Args[i].Op == "param" {
 				outer := roles[t.Args[i].Name]
 				for j := range out {
@@ -215,6 +217,8 @@ func (pe *parserEval) eval0(v ssa.Value) kval {
 				}
 			}
 		}
+	case *ssa.Phi:
+		return pe.evalLoopPhi(x)
 	case *ssa.Convert:
 		return pe.eval(x.X)
 	case *ssa.ChangeType:
@@ -305,6 +309,72 @@ func (pe *parserEval) eval0(v ssa.Value) kval {
 		}
 	}
 	return kval{kind: "unknown"}
+}
+
+// evalLoopPhi: the value AFTER a loop with a constant trip count of a variable that the loop advances, e.g.
+//
+//	for i := 0; i < 3; i++ { offset += int(key[offset]) + 1 }
+//
+// The header phi of `offset` is evaluated by unrolling: the step expression is re-evaluated N times with the phi bound
+// to the previous value.  Only the exit value is meaningful, which is how the parsers use it (the loop variable is read
+// after the loop); a use inside the body would see the exit value too, so such uses make the result unknown.
+func (pe *parserEval) evalLoopPhi(phi *ssa.Phi) kval {
+	b := phi.Block()
+	if len(phi.Edges) != 2 || len(b.Preds) != 2 {
+		return kval{kind: "unknown"}
+	}
+	// which edge is the back edge (predecessor dominated by the header)?
+	back := -1
+	for i, p := range b.Preds {
+		if b.Dominates(p) {
+			back = i
+		}
+	}
+	if back < 0 {
+		return kval{kind: "unknown"}
+	}
+	// constant trip count: the header ends in `if i < N` with i = phi[0, i+1]
+	iff, ok := lastInstr(b).(*ssa.If)
+	if !ok {
+		return kval{kind: "unknown"}
+	}
+	cmp, ok := iff.Cond.(*ssa.BinOp)
+	if !ok || cmp.Op != token.LSS {
+		return kval{kind: "unknown"}
+	}
+	ctr, ok := cmp.X.(*ssa.Phi)
+	nC, ok2 := cmp.Y.(*ssa.Const)
+	if !ok || !ok2 || ctr.Block() != b || nC.Value == nil || nC.Value.Kind() != constant.Int {
+		return kval{kind: "unknown"}
+	}
+	n, _ := constant.Int64Val(nC.Value)
+	init, ok := ctr.Edges[1-back].(*ssa.Const)
+	if !ok || init.Value == nil || init.Int64() != 0 || n < 0 || n > 8 {
+		return kval{kind: "unknown"}
+	}
+	inc, ok := ctr.Edges[back].(*ssa.BinOp)
+	if !ok || inc.Op != token.ADD || inc.X != ssa.Value(ctr) {
+		return kval{kind: "unknown"}
+	}
+	if one, ok := inc.Y.(*ssa.Const); !ok || one.Value == nil || one.Int64() != 1 {
+		return kval{kind: "unknown"}
+	}
+	if phi == ctr {
+		return kval{kind: "const", n: n}
+	}
+	cur := pe.eval(phi.Edges[1-back])
+	for j := int64(0); j < n; j++ {
+		// re-evaluate the step with the phi bound to the current value
+		saved := pe.memo
+		pe.memo = map[ssa.Value]kval{phi: cur}
+		next := pe.eval(phi.Edges[back])
+		pe.memo = saved
+		if next.kind == "unknown" {
+			return next
+		}
+		cur = next
+	}
+	return cur
 }
 
 // parserOutputs describes what each result of a parser is, in terms of the parsed layout.
